@@ -597,7 +597,7 @@ func init() {
 		Explanation: "Decides the structural clause 'the codec tables are complete and symmetric': every expr.Expr implementation registered once with a unique msgpack extension id; goexpr types constructible from SQL registered; every field read by an expression's behavioural methods restored on decode (exported/default-coded or assigned in DecodeMsgpack, function-valued fields from the constructor's registry); custom encoder/decoder operand sequences equal; all message structs crossing SendMsg/RecvMsg fully exported (FlatRow.fields restored by the receiver).",
 		NotDecided:  []string{"byte-level fidelity of msgpack, snappy and gRPC", "float formatting / NaN payloads", "value equality of decoded expressions on data (needs execution)"},
 		Assumptions: []string{"msgpack v3.1.4: structs are encoded as maps of exported and embedded fields; types with EncodeMsgpack/DecodeMsgpack use those; RegisterExt ids select the decoded type"},
-		Rules:       []func(*Ctx){ruleC20a, ruleC20b, ruleC20c, ruleC20d, ruleC20e},
+		Rules:       []func(*Ctx){ruleC20a, ruleC20b, ruleC20c, ruleC20d, ruleC20e, ruleC20f},
 	})
 }
 
@@ -688,4 +688,127 @@ func ruleC20e(c *Ctx) {
 		}
 	}
 	c.check(rule, "Insert: every continued iteration has latched the stream name", latch.Pos(), ok && nBack > 0, "the latch dominates all "+itoa(nBack)+" back edges of the receive loop", "the receive loop can continue with the next message without having latched the batch's stream name from the first message: if the first point of a batch is rejected, the stream name is lost and the rest of the batch fails")
+}
+
+// ruleC20f: every field of a protocol message that one side sets is consumed
+// by the other side, and every field that is consumed is set by someone.
+func ruleC20f(c *Ctx) {
+	const rule = "C20.f"
+	c.describe(rule, "reg (field write/read sets over the whole module): for the RPC protocol messages (rpc.Query, rpc.RemoteQueryResult, rpc.Insert, rpc.Point, rpc.SourceInfo, rpc.RegisterQueryHandler, common.Follow) every field stored by some function is loaded by some function and vice versa — a field the sender stops filling (e.g. IncludeMemStore, Deadline) or the receiver stops honouring silently changes the meaning of the message")
+	type rw struct{ w, r []string }
+	msgs := []string{"z/rpc.Query", "z/rpc.RemoteQueryResult", "z/rpc.Insert", "z/rpc.Point", "z/rpc.SourceInfo", "z/rpc.RegisterQueryHandler", "z/common.Follow"}
+	isMsg := map[string]bool{}
+	for _, m := range msgs {
+		isMsg[m] = true
+	}
+	acc := map[string]*rw{}
+	note := func(key string, write bool, fn *ssa.Function) {
+		x := acc[key]
+		if x == nil {
+			x = &rw{}
+			acc[key] = x
+		}
+		if write {
+			x.w = append(x.w, stableName(fn))
+		} else {
+			x.r = append(x.r, stableName(fn))
+		}
+	}
+	for _, fn := range c.P.ModFns {
+		if strings.HasPrefix(pkgOf(fn), "z/testsupport") {
+			continue
+		}
+		for _, in := range instrs(fn) {
+			switch x := in.(type) {
+			case *ssa.FieldAddr:
+				f := fieldVar(x.X.Type(), x.Field)
+				if f == nil {
+					continue
+				}
+				k := fieldKey(x.X.Type(), f)
+				st := k[:strings.LastIndex(k, ".")]
+				if !isMsg[st] {
+					continue
+				}
+				for _, r := range *x.Referrers() {
+					switch y := r.(type) {
+					case *ssa.Store:
+						if y.Addr == ssa.Value(x) {
+							note(k, true, fn)
+						} else {
+							note(k, false, fn) // address stored elsewhere: treat as read
+						}
+					case *ssa.UnOp:
+						note(k, false, fn)
+					case *ssa.DebugRef:
+					default:
+						// address escapes (passed to a call, e.g. ctx.Deadline() results stored through it): both
+						note(k, true, fn)
+						note(k, false, fn)
+					}
+				}
+			case *ssa.Field:
+				f := fieldVar(x.X.Type(), x.Field)
+				if f == nil {
+					continue
+				}
+				k := fieldKey(x.X.Type(), f)
+				if isMsg[k[:strings.LastIndex(k, ".")]] {
+					note(k, false, fn)
+				}
+			}
+		}
+	}
+	n := 0
+	for _, m := range msgs {
+		T := (*types.Named)(nil)
+		if strings.HasPrefix(m, "z/rpc.") {
+			T = c.P.Named("z/rpc", strings.TrimPrefix(m, "z/rpc."))
+		} else {
+			T = c.P.Named("z/common", strings.TrimPrefix(m, "z/common."))
+		}
+		if T == nil {
+			c.undecided(rule, "message type "+m, token.NoPos, "type not found")
+			continue
+		}
+		st, ok := T.Underlying().(*types.Struct)
+		if !ok {
+			continue
+		}
+		for i := 0; i < st.NumFields(); i++ {
+			f := st.Field(i)
+			k := m + "." + f.Name()
+			x := acc[k]
+			n++
+			hasW := x != nil && len(x.w) > 0
+			hasR := x != nil && len(x.r) > 0
+			switch {
+			case hasW && hasR:
+				c.ok(rule, "message field "+k+" is set and consumed", f.Pos(), "set in "+uniqJoin(x.w)+"; read in "+uniqJoin(x.r))
+			case hasW:
+				c.bad(rule, "message field "+k+" is set and consumed", f.Pos(), "the field is filled by "+uniqJoin(x.w)+" but no function of the module reads it: the receiving side ignores part of the message (e.g. a deadline, a flag or an error) and behaves differently from an in-process call")
+			case hasR:
+				c.bad(rule, "message field "+k+" is set and consumed", f.Pos(), "the field is read by "+uniqJoin(x.r)+" but no function of the module ever sets it: the receiver always sees the zero value")
+			default:
+				c.bad(rule, "message field "+k+" is set and consumed", f.Pos(), "the field is neither set nor read anywhere in the module")
+			}
+		}
+	}
+	c.floor(rule, "protocol message fields", n, 20)
+}
+
+func uniqJoin(s []string) string {
+	seen := map[string]bool{}
+	var out []string
+	for _, x := range s {
+		if !seen[x] {
+			seen[x] = true
+			out = append(out, x)
+		}
+	}
+	sort.Strings(out)
+	if len(out) > 3 {
+		out = append(out[:3], "…")
+	}
+	return strings.Join(out, ", ")
 }
